@@ -121,7 +121,7 @@ func (l *scionLive) configure(cfg exchCfg, f *recFilter) {
 func (l *scionLive) getPrev() client.VerifC03Prev  { return client.VerifC03PrevSCION(l.c) }
 func (l *scionLive) setPrev(p client.VerifC03Prev) { client.VerifC03SetPrevSCION(l.c, p) }
 func (l *scionLive) measure(ctx context.Context) (time.Time, time.Duration, error) {
-	la := udp.UDPAddr{IA: localIA, Host: &net.UDPAddr{IP: scionLocalIP(), Zone: liveZone}}
+	la := udp.UDPAddr{IA: localIA, Host: &net.UDPAddr{IP: scionLocalIP(), Zone: liveZone, Port: livePort}}
 	ra := scionRemote()
 	var path snet.Path = spath.Path{Src: localIA, Dst: remoteIA, DataplanePath: spath.Empty{},
 		NextHop: net.UDPAddrFromAddrPort(thePeer.addr)}
@@ -419,7 +419,7 @@ func scionMutants(r *lib.Rand, now int64) []scionMutant {
 		{"e2e:timestamp", with(func(v *scionVariant) { v.e2eTs = wallNow().UnixNano(); v.tsUse = true }), nil},
 		{"e2e:timestamp:1h-early", with(func(v *scionVariant) { v.e2eTs = now - 3600*nsps }), nil},
 		{"e2e:timestamp:just-before-tx", with(func(v *scionVariant) { v.e2eTs = firstReading() - 1 }), nil},
-		{"e2e:timestamp:late", with(func(v *scionVariant) { v.e2eTs = now + 20000000 }), nil},
+		{"e2e:timestamp:late", with(func(v *scionVariant) { v.e2eTs = now + 2*nsps }), nil}, // 2 s: later than any receive time of the exchange, also on a loaded machine
 		{"e2e:timestamp:100y-future", with(func(v *scionVariant) { v.e2eTs = now + 100*365*86400*nsps }), nil},
 		{"e2e:timestamp:malformed-len63", with(func(v *scionVariant) { v.tsRaw = tsOptData(now)[:63] }), nil},
 		{"e2e:timestamp:malformed-len20", with(func(v *scionVariant) { v.tsRaw = tsOptData(now)[:20] }), nil},
